@@ -22,6 +22,10 @@ class _Break(Exception):
     pass
 
 
+class _Continue(Exception):
+    pass
+
+
 def _wrap(v, t):
     if t is None:
         return v
@@ -54,6 +58,8 @@ def ev(n, env):
             if n["decl"] not in env:
                 raise Unsupported("unbound %s" % n["decl"])
             return env[n["decl"]]
+        if n.get("dk") == "staticlocal" and n.get("vconst") and ("static:" + n.get("name", "")) in env:
+            return env["static:" + n["name"]]
         raise Unsupported("ref %s" % n.get("decl"))
     if k == "member" and n.get("dk") == "field" and strip(n["base"]).get("k") == "this":
         key = "this->" + n["name"]
@@ -70,7 +76,7 @@ def ev(n, env):
         if n.get("ck") == "IntegralToBoolean":
             return 1 if v else 0
         return _wrap(v, n.get("t"))
-    if k == "un":
+    if k == "un" and n.get("op") not in ("pre++", "post++", "pre--", "post--"):
         op = n["op"]
         v = ev(n["e"], env)
         if op == "!":
@@ -101,6 +107,33 @@ def ev(n, env):
         return _wrap(r, n.get("t"))
     if k == "cond":
         return ev(n["a"], env) if ev(n["c"], env) else ev(n["b"], env)
+    if k == "initlist":
+        return [ev(x, env) for x in n.get("inits", [])]
+    if k == "subscript":
+        base, idx = ev(n["base"], env), ev(n["idx"], env)
+        if not isinstance(base, list) or not isinstance(idx, int) or not (0 <= idx < len(base)):
+            raise Unsupported("subscript outside a known constant array")
+        return base[idx]
+    if k == "un" and n.get("op") in ("pre++", "post++", "pre--", "post--"):
+        l = strip(n["e"])
+        if l.get("k") == "ref" and l.get("dk") == "local" and l["decl"] in env:
+            old = env[l["decl"]]
+            env[l["decl"]] = _wrap(old + (1 if "++" in n["op"] else -1), l.get("t"))
+            return old if n["op"].startswith("post") else env[l["decl"]]
+        raise Unsupported("increment of non-local")
+    if k == "cassign":
+        l = strip(n["l"])
+        if l.get("k") == "ref" and l.get("dk") == "local" and l["decl"] in env:
+            a, b = env[l["decl"]], ev(n["r"], env)
+            op = n.get("op")
+            try:
+                r = {"+": lambda: a + b, "-": lambda: a - b, "*": lambda: a * b, "&": lambda: a & b, "|": lambda: a | b,
+                     "^": lambda: a ^ b, "<<": lambda: a << b, ">>": lambda: a >> b}[op]()
+            except KeyError:
+                raise Unsupported("compound assignment %s" % op)
+            env[l["decl"]] = _wrap(r, l.get("t"))
+            return env[l["decl"]]
+        raise Unsupported("compound assignment to non-local")
     if k == "assign":
         l = strip(n["l"])
         if l.get("k") == "ref" and l.get("dk") == "local":
@@ -125,7 +158,10 @@ def _exec(s, env):
     elif k == "decl":
         for v in s["vars"]:
             if isinstance(v.get("init"), dict):
-                env[v["decl"]] = _wrap(ev(v["init"], env), v.get("t"))
+                val = ev(v["init"], env)
+                env[v["decl"]] = val if isinstance(val, list) else _wrap(val, v.get("t"))
+                if v.get("static") and (v.get("t") or {}).get("const"):
+                    env["static:" + v.get("name", "")] = env[v["decl"]]
     elif k == "switch":
         val = ev(s["cond"], env)
         body = s["body"].get("body", []) if s["body"].get("k") == "compound" else [s["body"]]
@@ -162,7 +198,29 @@ def _exec(s, env):
         raise _Break()
     elif k == "null":
         pass
-    elif k in ("while", "for", "do", "rangefor", "try"):
+    elif k in ("while", "for"):
+        # concrete execution of a loop; the step budget keeps the evaluator total
+        if "init" in s and isinstance(s["init"], dict):
+            _exec(s["init"], env)
+        steps = 0
+        try:
+            while True:
+                if isinstance(s.get("cond"), dict) and not ev(s["cond"], env):
+                    break
+                steps += 1
+                if steps > 4096:
+                    raise Unsupported("loop does not finish within 4096 iterations")
+                try:
+                    _exec(s["body"], env)
+                except _Continue:
+                    pass
+                if isinstance(s.get("inc"), dict):
+                    ev(s["inc"], env)
+        except _Break:
+            pass
+    elif k == "continue":
+        raise _Continue()
+    elif k in ("do", "rangefor", "try"):
         raise Unsupported("statement %s" % k)
     else:
         ev(s, env)
